@@ -325,7 +325,8 @@ def judge_server_result(prefix, data, r, ext, stats, limits=None):
             break
         # accept or either with a defined parse
         if i >= len(got):
-            if suspect and not optional:
+            # (the suspicion needs a message that MUST be delivered: one the server may reject on its own account proves nothing)
+            if suspect and not optional and v == 'accept' and not (unknown_method and not ext):
                 viol.append((prefix + ":" + suspect, "the framing bytes of the previous message (empty decoded body) were not consumed and got parsed as a request, "
                              "so this message was not delivered; %s" % ctx))
             elif v == 'accept' and not optional and not (unknown_method and not ext):
